@@ -131,6 +131,7 @@ def main():
             print('ERROR', sc['op'], repr(ex)[:300]); bad += 1
     bad += other_paths()
     bad += tape_vs_file()
+    bad += re_model()
     print('crosscheck', 'OK' if not bad else 'FAILED (%d)' % bad)
     return 1 if bad else 0
 
@@ -294,6 +295,55 @@ finally:
         print('%s tape vs file %s mesh=%s xp=%s %s' % ('agree ' if not res else 'DIFFER', flavour, mesh, xp, res[:2] if res else '(%d files, %d records)' % (len(recs), sum(len(v) for v in recs.values()))))
         bad += bool(res)
     return bad
+
+
+# ---------------------------------------------------------------------------------------------
+# the model of `re` (pyvc/rx.py) and the deciding str.find against CPython, on concrete strings: the same code decides
+# symbolic characters by branching on the conditions that are evaluated here
+
+
+def re_model():
+    import re, random
+    from pyvc.engine import Engine
+    from pyvc import rx, library
+    from pyvc.values import SymStr
+    e = Engine(REPO, timeout_ms=20000)
+    pats = [r'^([+-]?\d+\.?\d*)([+-]\d+)$', r'^([+-]?(?:\d+\.?\d*|\.\d+))([+-]\d+)$', r'\.[0-9]+', r'\.', r'a*?b', r'(a|ab)(c|bcd)(d*)', r'[^ ]+', r'\s*(\w+)\s*=\s*(\d+)?',
+            r'x{2,3}y?', r'(?:ab)+c$', r'\A\d{1,2}\Z', r'([eEdD])([+-]?)(\d+)', r'\[.*\]']
+    alph = '+-.0123456789 eEdDabcx=y_[]\n'
+    rnd = random.Random(5); n = cases = 0
+    for it in range(4000):
+        p = rnd.choice(pats); s = ''.join(rnd.choice(alph) for _ in range(rnd.randint(0, 9)))
+        po = rx.compile_(e, p); cp = re.compile(p)
+        for kind in ('match', 'fullmatch', 'search'):
+            a = getattr(cp, kind)(s); b = po.fields[kind].fn(e, s); cases += 1
+            if (a is None) != (b is None): n += 1; print('DIFFER re.%s %r %r' % (kind, p, s)); continue
+            if a is not None and (a.span(), a.groups(), a.group(0)) != (b.fields['span'].fn(e), b.fields['groups'].fn(e), b.fields['group'].fn(e)):
+                n += 1; print('DIFFER re.%s %r %r' % (kind, p, s))
+        try:
+            fb = po.fields['findall'].fn(e, s)
+        except Exception:
+            fb = None            # an empty match: outside the subset
+        if fb is not None:
+            cases += 1
+            if cp.findall(s) != fb: n += 1; print('DIFFER re.findall %r %r' % (p, s))
+    e.find_branches = True
+    for it in range(3000):
+        s = ''.join(rnd.choice(' .E-1') for _ in range(rnd.randint(0, 12))); c = rnd.choice(' .E-')
+        a, b = rnd.randint(-3, 13), rnd.choice([None, rnd.randint(-3, 14)])
+        got = library._find(e, _sym(s), c, a, b)
+        want = s.find(c, a) if b is None else s.find(c, a, b); cases += 1
+        if got != want: n += 1; print('DIFFER find %r.find(%r, %r, %r) = %r, model %r' % (s, c, a, b, want, got))
+    print('%s re model / deciding find vs CPython (%d cases)' % ('agree ' if not n else 'DIFFER', cases))
+    return n
+
+
+def _sym(s):
+    """a SymStr with concrete characters that does not normalise to a str (so that the model's own code runs)"""
+    from pyvc.values import SymStr
+    class Keep(SymStr):
+        def concrete(self): return None
+    return Keep([ord(x) for x in s])
 
 
 if __name__ == '__main__':
